@@ -1011,7 +1011,27 @@ class Exporter
                 J.arrayEnd();
                 J.attributeEnd();
             }
-            if (F->hasInClassInitializer()) J.attribute("has_init", true);
+            if (F->hasInClassInitializer())
+            {
+                J.attribute("has_init", true);
+                const Expr* IE = F->getInClassInitializer();
+                if (!IE)
+                {
+                    // lazily instantiated member initialiser of a class template specialisation: read the pattern's
+                    if (const FieldDecl* PF = dyn_cast_or_null<FieldDecl>(F->getASTContext().getInstantiatedFromUnnamedFieldDecl(const_cast<FieldDecl*>(F))))
+                        IE = PF->getInClassInitializer();
+                    if (!IE)
+                        if (const CXXRecordDecl* Pat = RD->getTemplateInstantiationPattern())
+                            for (const FieldDecl* PF : Pat->fields())
+                                if (PF->getName() == F->getName()) IE = PF->getInClassInitializer();
+                }
+                if (IE)
+                {
+                    Expr::EvalResult R;
+                    if (!IE->isValueDependent() && IE->EvaluateAsInt(R, RD->getASTContext()))
+                        J.attribute("init_cv", (int64_t)R.Val.getInt().getExtValue());
+                }
+            }
             if (F->isMutable()) J.attribute("mutable", true);
             J.objectEnd();
         }
